@@ -147,7 +147,16 @@ def r4_bits(ctx):
   prog = ctx.prog
   why_tag = 'the reader reassembles the tag as b2*2^16 + b1*2^8 + b0; any other byte order or mask routes replies to the wrong request'
   enc0 = prog.try_func(TSINK, 'SocketTransportSink._EncodeTag')
+  delegated = False
   if enc0 is None:
+    # the header writer may use the sibling encoder directly: pack(.., *Tag(<tag parameter>).Encode())
+    bh0 = prog.func(TSINK, 'SocketTransportSink._BuildHeader')
+    for x in wire.struct_sites(prog, bh0):
+      for a in (x.args if x.op == 'pack' else []):
+        if isinstance(a, ast.Starred) and isinstance(a.value, ast.Call) and call_attr(a.value) == 'Encode' and isinstance(a.value.func.value, ast.Call) \
+           and U(a.value.func.value.func).split('.')[-1] == 'Tag' and [U(z) for z in a.value.func.value.args] == [bh0.params[1]]:
+          delegated = True
+  if enc0 is None and not delegated:
     # the header writer no longer goes through the byte-wise tag encoder: it may pack type and tag as one 32-bit word.
     # The mux type is a SIGNED byte (every reply type is negative), so such a word must be packed signed
     bh_ = prog.func(TSINK, 'SocketTransportSink._BuildHeader')
@@ -166,7 +175,7 @@ def r4_bits(ctx):
                  'type << 24 for them (struct.error) and the reader no longer inverts the writer for any reply type' % sites_[0].fmt.text)
     ctx.ob('C13.R4', bh_, 'the header writer packs the signed type byte and the 24-bit tag', okw, whatw, why_tag)
     return
-  encs = [enc0, prog.func(MUX, 'Tag.Encode')]
+  encs = ([enc0] if enc0 is not None else []) + [prog.func(MUX, 'Tag.Encode')]
   vecs = []
   for f in encs:
     try:
@@ -181,15 +190,16 @@ def r4_bits(ctx):
       ok = False
     ctx.ob('C13.R4', f, 'tag bytes are big-endian slices of the tag', ok,
            'encoder does not produce [tag>>16 & 0xff, tag>>8 & 0xff, tag & 0xff]', why_tag)
-  ctx.ob('C13.R4', encs[0], 'sibling tag encoders agree', len(vecs) == 2 and all(a.bits == b.bits for a, b in zip(*vecs)) if len(vecs) == 2 else False,
-         'Tag.Encode and _EncodeTag disagree', why_tag)
+  if len(encs) == 2:
+    ctx.ob('C13.R4', encs[0], 'sibling tag encoders agree', len(vecs) == 2 and all(a.bits == b.bits for a, b in zip(*vecs)) if len(vecs) == 2 else False,
+           'Tag.Encode and _EncodeTag disagree', why_tag)
 
   # the header writer uses the encoder for the three B fields
   bh = prog.func(TSINK, 'SocketTransportSink._BuildHeader')
   s = [x for x in wire.struct_sites(prog, bh) if x.op == 'pack'][0]
   star = [a for a in s.args if isinstance(a, ast.Starred)]
   ok = (len(star) == 1 and isinstance(star[0].value, ast.Call) and call_attr(star[0].value) in ('_EncodeTag', 'Encode')
-        and star[0].value.args and isinstance(star[0].value.args[0], ast.Name) and star[0].value.args[0].id == bh.params[1])
+        and star[0].value.args and isinstance(star[0].value.args[0], ast.Name) and star[0].value.args[0].id == bh.params[1]) or (delegated and len(star) == 1)
   ctx.ob('C13.R4', bh, 'tag bytes come from the tag parameter', ok,
          'the three tag bytes are not *_EncodeTag(<tag parameter>)', why_tag)
 
